@@ -629,11 +629,33 @@ func (v *V) classTags() []string {
 	return r
 }
 
+// shapes beyond ten thousand: container SIBLINGS (a counter that is meant to limit depth but counts siblings, or a limit of 10000 /
+// 65536 on anything else, shows here), a wide object of containers, a list of short strings
+func hugeTrees() []*V {
+	a := &V{K: KList}
+	b := &V{K: KList}
+	c := &V{K: KObj}
+	d := &V{K: KList}
+	for i := 0; i < 10050; i++ {
+		a.L = append(a.L, vlist())
+		if i%2 == 0 {
+			b.L = append(b.L, vobj())
+		} else {
+			b.L = append(b.L, vlist(vint(i)))
+		}
+		c.O = append(c.O, KV{fmt.Sprintf("m%05d", i), vlist()})
+	}
+	for i := 0; i < 66000; i++ {
+		d.L = append(d.L, vint(i&7))
+	}
+	return []*V{a, b, c, d}
+}
+
 func genTreeProp(prop string) genFunc {
 	return func(r *R, n int, tier string, out *Out) {
 		o := validTreeOpts()
 		o.Stress = true
-		big := r.bigTrees(o)
+		big := append(r.bigTrees(o), hugeTrees()...)
 		for i := 0; i < n; i++ {
 			var v *V
 			switch {
@@ -739,9 +761,14 @@ func (r *R) wsSlot() string {
 
 var numSpellings = []string{"0", "-0", "1", "-1", "10", "123", "9223372036854775807", "-9223372036854775808", "9223372036854775808", "-9223372036854775809",
 	"123456789012345678901234567890", "0.5", "-0.25", "1.0", "0.10", "1e2", "1E2", "1e+2", "1E-2", "-1.5e10", "1.7976931348623157e308", "5e-324", "2.2250738585072014e-308",
+	"1" + strings.Repeat("0", 70), "0." + strings.Repeat("0", 70) + "1", strings.Repeat("123456789", 9) + ".5", "-" + strings.Repeat("9", 80), "1" + strings.Repeat("0", 70) + "e-70",
+	"0." + strings.Repeat("0", 90) + "25e+80", "1." + strings.Repeat("0", 63), "1." + strings.Repeat("0", 64), "3." + strings.Repeat("3", 130),
 	"0e0", "0.0", "-0.0", "1e-400", "123.456e-7", "4.9e-324", "100000000000000000000", "0E+0", "3.0e0", "2147483648", "-2147483649", "4294967296", "1e300", "1e-300", "0.1e1"}
 
 // the characters that have a short escape, spelled with \u instead (upper- and lower-case hex)
+// an escaped solidus directly followed by characters that start a comment in JSON-with-comments dialects; other look-alikes of syntax
+var solidusSeqs = []string{`\//`, `\/*`, `*\/`, `\/\/`, `/*`, `*/`, `//`, `\/*x*\/`, `<!--`, `#`, `\\/`, `\\//`}
+
 var uSpellings = []string{`\u0022`, `\u005c`, `\u005C`, `\u002f`, `\u002F`, `\u0008`, `\u000c`, `\u000C`, `\u000a`, `\u000A`, `\u000d`, `\u000D`, `\u0009`, `\u0000`, `\u001f`, `\u007f`, `\u0020`}
 
 func (r *R) jsonStringLiteral() string {
@@ -754,6 +781,12 @@ func (r *R) jsonStringLiteral() string {
 				b.WriteByte(byte('a' + r.Intn(26)))
 			}
 			b.WriteString(pickOf(r, uSpellings))
+		}
+	}
+	if r.chance(0.06) {
+		b.WriteString(pickOf(r, solidusSeqs))
+		if r.chance(0.5) {
+			b.WriteByte(byte('a' + r.Intn(26)))
 		}
 	}
 	if r.chance(0.1) {
@@ -1143,7 +1176,8 @@ func genC04(r *R, n int, tier string, out *Out) {
 			if r.chance(0.2) {
 				content = content[:r.Intn(len(content)+1)]
 			}
-			path := filepath.Join(tmp, fmt.Sprintf("f%d.json", i))
+			// (file names with characters that mean something to a shell or to an expanding helper: the path is used as it is)
+			path := filepath.Join(tmp, fmt.Sprintf(pickOf(r, []string{"f%d.json", "f%d.json", "price$tag%d.json", "a${x}b%d.json", "$HOME%d.json", "~%d.json", "sp ace%d.json", "pct%%41%d.json", "star*%d.json", "q?%d.json", "${}%d.json"}), i))
 			os.WriteFile(path, []byte(content), 0o600)
 			pf := parseFileOut(path)
 			pobj := doParse(true, content)
